@@ -121,7 +121,15 @@ def run_units(report, units, tier, rng, extra_after=None):
         targets += [f[:-2] + '.vo' for f in fl]
         targets += [f[:-2] + '.vo' for f in case_files.get(u.name, [])]
     H.clean_stale(prop_files)
-    ok, missing, bad_files, out = H.coq_make(targets) if targets else ([], [], {}, '')
+    # two stages: the theorem files first (minutes), then the generated correspondence files (thousands of Interval goals in the thorough tier) -
+    # a slow or loaded machine can then at worst leave case files unbuilt, never a theorem; generous limits: the timeout is a net for a hung tactic only
+    lim = 7200 if tier == 'quick' else 21600
+    prop_targets = [f[:-2] + '.vo' for f in prop_files]
+    ok1, missing1, bad1, out1 = H.coq_make(prop_targets, timeout=lim) if prop_targets else ([], [], {}, '')
+    rest = [t for t in targets if t not in prop_targets]
+    ok2, missing2, bad2, out2 = H.coq_make(rest, timeout=lim) if rest else ([], [], {}, '')
+    ok = list(ok1) + list(ok2); missing = list(missing1) + list(missing2); out = out1 + '\n' + out2
+    bad_files = dict(bad1); bad_files.update(bad2)
     report.trusted |= H.assumptions_from_output(out)
     report.extra['build_s'] = round(time.time() - t0, 1)
 
